@@ -537,7 +537,40 @@ def harvest_test_arguments(mod, names):
     return captured
 
 
-def run_calcs(mod, argseed, budget_s):
+def rescale(v, f):
+    """the same argument with every quantity in it multiplied by f (dimensions, lengths, container types kept)"""
+    from sympy.physics.units import Quantity as SymQuantity
+    from symplyphysics import Quantity
+    if isinstance(v, SymQuantity):
+        try:
+            return Quantity(f * v)
+        except Exception:  # pylint: disable=broad-except
+            return v
+    if isinstance(v, tuple) and hasattr(v, "_fields"):
+        return type(v)(*[rescale(x, f) for x in v])
+    if isinstance(v, (list, tuple)):
+        return type(v)(rescale(x, f) for x in v)
+    return v
+
+
+def call_once(fn, args, kwargs, budget_s):
+    t0 = time.time()
+    try:
+        with _time_limit(budget_s):
+            res = fn(*args, **kwargs)
+        out = {"r": result_fingerprint(res)}
+    except _Timeout:
+        out = {"timeout": budget_s}
+    except Exception as e:  # pylint: disable=broad-except
+        out = {"exc": f"{type(e).__name__}: {mask(str(e))[:200]}"}
+    out["s"] = round(time.time() - t0, 2)
+    return out
+
+
+def run_calcs(mod, argseed, budget_s, use=None):
+    """calculate_* on argument set A (harvested from the test-suite, else synthesised).  With `use` (a dict that is filled in): the USE
+    HISTORY stage -- argument set B (A with every quantity rescaled by a seeded factor per argument) is evaluated (i) in a forked child
+    that has never called anything, and (ii) here after all A calls; the driver compares the two."""
     out = {}
     names = [name for name, fn in list(vars(mod).items())
         if name.startswith("calculate_") and callable(fn) and getattr(fn, "__module__", None) == mod.__name__]
@@ -545,30 +578,56 @@ def run_calcs(mod, argseed, budget_s):
         harvested = harvest_test_arguments(mod, names) if names else {}
     except BaseException:  # pylint: disable=broad-except
         harvested = {}
+    plan = []
     for name in names:
-        fn = getattr(mod, name)
         fq = f"{mod.__name__}.{name}"
-        t0 = time.time()
         if name in harvested:
             args, kwargs = harvested[name]
             src = "test-suite"
         else:
             args, src = (), "synthesised"
             try:
-                kwargs = fixed_arguments(fn, fq, argseed)
+                kwargs = fixed_arguments(getattr(mod, name), fq, argseed)
             except Exception as e:  # pylint: disable=broad-except
                 out[name] = {"argerr": f"{type(e).__name__}: {mask(str(e))[:200]}"}
                 continue
+        plan.append((name, args, kwargs, src))
+    plan_b, fresh = [], {}
+    if use is not None and plan:
+        for name, args, kwargs, _src in plan:
+            fq = f"{mod.__name__}.{name}"
+            fac = lambda i: 1 + (stable_hash(fq, i, argseed) % 6 + 1) / 4          # pylint: disable=cell-var-from-loop
+            plan_b.append((name, tuple(rescale(a, fac(i)) for i, a in enumerate(args)),
+                {k: rescale(v, fac(k)) for k, v in kwargs.items()}))
+        r, w = os.pipe()
+        pid = os.fork()
+        if pid == 0:
+            try:
+                os.close(r)
+                res = {name: call_once(getattr(mod, name), a, k, budget_s) for name, a, k in plan_b}
+                with os.fdopen(w, "w") as f:
+                    f.write(json.dumps(res, default=str))
+            finally:
+                os._exit(0)  # pylint: disable=protected-access
+        os.close(w)
+        with os.fdopen(r) as f:
+            data = f.read()
+        os.waitpid(pid, 0)
         try:
-            with _time_limit(budget_s):
-                res = fn(*args, **kwargs)
-            out[name] = {"r": result_fingerprint(res)}
-        except _Timeout:
-            out[name] = {"timeout": budget_s}
-        except Exception as e:  # pylint: disable=broad-except
-            out[name] = {"exc": f"{type(e).__name__}: {mask(str(e))[:200]}"}
-        out[name]["s"] = round(time.time() - t0, 2)
+            fresh = json.loads(data)
+        except ValueError:
+            fresh = {}
+    for name, args, kwargs, src in plan:
+        out[name] = call_once(getattr(mod, name), args, kwargs, budget_s)
         out[name]["args"] = src
+    if use is not None:
+        calls = {}
+        for (name, a, k), (_n, a0, k0, _s) in zip(plan_b, plan):
+            after = call_once(getattr(mod, name), a, k, budget_s)
+            calls[name] = {"B_after_A": after, "B_fresh": fresh.get(name), "A": out.get(name),
+                "sequence": [f"{name}{mask(str(tuple(a0)))[:300]} {mask(str(k0))[:200] if k0 else ''}".strip(),
+                             f"{name}{mask(str(tuple(a)))[:300]} {mask(str(k))[:200] if k else ''}".strip()]}
+        use["calls"] = calls
     return out
 
 
@@ -619,10 +678,32 @@ def observe_module(name, keys, spec):
     obs["import_s"] = round(time.time() - t0, 2)
     obs["ids"] = _delta(before, dict(g._ids))  # pylint: disable=protected-access
     local = keys.for_module(mod)
-    eqs, sre = {}, {}
     stats = {}
+    eqs, sre = published(mod, local, keys, stats, spec.get("srepr", True))
+    obs["eqs"] = eqs
+    obs["srepr"] = sre
+    obs["uses"] = earlier_names_used(mod, before)
+    obs["fallback_keys"] = stats.get("fallback_keys", 0)
+    if spec.get("calc"):
+        use = {} if spec.get("use") else None
+        obs["calc"] = run_calcs(mod, spec.get("argseed", 0), spec.get("calc_budget_s", 20), use)
+        if use is not None:
+            # use history: has calling the module's functions changed what the module publishes?
+            after, _ = published(mod, local, keys, {}, False)
+            use["published_changed"] = {a: [eqs.get(a), after.get(a)] for a in sorted(set(eqs) | set(after)) if eqs.get(a) != after.get(a)}
+            obs["use"] = use
+    return obs
+
+
+def published(mod, local, keys, stats, want_srepr):
+    """canonical text of every public attribute that is a non-atomic SymPy object, or a list / tuple of such (a law given as a system)"""
+    import sympy
+    eqs, sre = {}, {}
     for attr, val in list(vars(mod).items()):
-        if attr.startswith("_") or not isinstance(val, sympy.Basic) or not val.args:
+        if attr.startswith("_"):
+            continue
+        is_seq = isinstance(val, (list, tuple)) and len(val) > 0 and all(isinstance(x, sympy.Basic) and x.args for x in val)
+        if not is_seq and (not isinstance(val, sympy.Basic) or not val.args):
             continue
         if isinstance(val, (sympy.Symbol, sympy.physics.units.Quantity, sympy.IndexedBase)):
             continue
@@ -630,17 +711,11 @@ def observe_module(name, keys, spec):
             eqs[attr] = canonical(val, local, keys, stats)
         except Exception as e:  # pylint: disable=broad-except
             eqs[attr] = f"!canonical failed: {type(e).__name__}: {mask(str(e))[:200]}"
-        if spec.get("srepr", True):
+        if want_srepr and not is_seq:
             r = reconstructable(val, local, keys, stats)
             if r is not None:
                 sre[attr] = r
-    obs["eqs"] = eqs
-    obs["srepr"] = sre
-    obs["uses"] = earlier_names_used(mod, before)
-    obs["fallback_keys"] = stats.get("fallback_keys", 0)
-    if spec.get("calc"):
-        obs["calc"] = run_calcs(mod, spec.get("argseed", 0), spec.get("calc_budget_s", 20))
-    return obs
+    return eqs, sre
 
 
 GEN_FULL = re.compile(r"^(SYM|FUN|QTY|SYS|VEC|C)(\d+)$")
